@@ -7,3 +7,14 @@ def path_of_backup_copy(trashinfo_path):
     trash_dir = os.path.dirname(os.path.dirname(trashinfo_path))
     basename = os.path.basename(trashinfo_path)[:-len('.trashinfo')]
     return os.path.join(trash_dir, 'files', basename)
+
+
+def is_trashinfo_name(basename):
+    """
+    A name like '.trashinfo', '..trashinfo' or '...trashinfo' cannot belong to
+    a trashed file (its backup copy would be 'files/', 'files/.' or
+    'files/..'), hence it is not a trashinfo file.
+    """
+    suffix = '.trashinfo'
+    return (basename.endswith(suffix) and
+            basename[:-len(suffix)] not in ('', '.', '..'))
